@@ -5,7 +5,18 @@ import json, sys
 pid = sys.argv[1]
 props = {json.loads(l)['id']: json.loads(l) for l in open('/verif/properties.jsonl')}
 p = props[pid]
-wt = f"/tmp/wb-{pid}"
+rnd = sys.argv[2] if len(sys.argv) > 2 else "1"
+wt = f"/tmp/wb-{pid}" if rnd == "1" else f"/tmp/wb{rnd}-{pid}"
+extra = "" if rnd == "1" else """
+
+THIS ROUND: earlier rounds already covered simple local rewrites (if/else <-> switch, inverted conditions, extracted guard helpers, renamed variables, defer <-> explicit unlock). Go further this time - still strictly behaviour-preserving, but STRUCTURAL:
+  - move a statement or a check across a function boundary: from a callee up into ALL of its callers, or from the callers down into the callee (only where that is truly equivalent on every path);
+  - split one function into two (e.g. a locked wrapper and a *Locked worker, or a decode step and an apply step), or merge a small single-caller helper back into its caller;
+  - change a helper's signature (add/remove/reorder parameters, return an extra value, take a struct instead of several values) and adapt every call site;
+  - replace a loop form (range <-> index loop <-> early-exit search helper), use newer standard library helpers (min/max builtins, slices.Contains/Index/Delete, bytes.Clone, errors.Is) where exactly equivalent;
+  - introduce a small local type or a named constant for a repeated literal; hoist repeated field reads into locals; replace a boolean flag variable by structured control flow or the reverse;
+  - change the error-handling shape (wrap in a helper that returns early, named results with a single exit, sentinel errors) without changing which errors are returned when.
+Produce TWO edits (A and B) this round instead of three, each 15-60 changed lines, each using a different one of these structural kinds."""
 print(f"""You are working on a scratch git worktree of the Go library hashicorp/memberlist (SWIM/Lifeguard gossip membership) at {wt}. Work ONLY inside {wt}. Never touch /repo or /verif, never read anything under /verif, and do not commit anything. Do NOT use `git stash` (the stash is shared between worktrees; other agents work in sibling worktrees).
 
 Environment (the sandbox has NO network; run this at the start of every shell command because the environment does not persist):
@@ -16,7 +27,7 @@ Here is a semantic property that the library satisfies (this JSON record is all 
 
 {json.dumps(p, indent=1)}
 
-YOUR TASK: produce THREE different, independent source changes ("edit A", "edit B", "edit C") to the library's NON-test source code in the functions this property is anchored in (the mechanisms it names, their helpers and their call sites), each of which is a realistic maintenance edit that PRESERVES the behaviour the property describes - the property must still hold, for every input, schedule and history, after your edit, and the observable behaviour of the library should be unchanged (or changed only in ways irrelevant to the property, e.g. a log message, an extra metric, an early-out that cannot change results, stopping a timer that is about to be deleted anyway). These edits will be used to test a static checker for false alarms, so make them the kind of thing a maintainer really does AND that changes the SHAPE of the code the property depends on:
+YOUR TASK: produce THREE different, independent source changes ("edit A", "edit B", "edit C"; see the end of this message if a different number is asked for in this round) to the library's NON-test source code in the functions this property is anchored in (the mechanisms it names, their helpers and their call sites), each of which is a realistic maintenance edit that PRESERVES the behaviour the property describes - the property must still hold, for every input, schedule and history, after your edit, and the observable behaviour of the library should be unchanged (or changed only in ways irrelevant to the property, e.g. a log message, an extra metric, an early-out that cannot change results, stopping a timer that is about to be deleted anyway). These edits will be used to test a static checker for false alarms, so make them the kind of thing a maintainer really does AND that changes the SHAPE of the code the property depends on:
   - rewrite an if/else chain as a switch or vice versa; invert a condition and swap the branches; turn an early return into a nested block or the reverse;
   - extract a few lines (a guard, a computation, a state update) into a new small helper function or method, or inline an existing small helper at its call sites;
   - rename local variables / introduce a local for a repeated expression / remove such a local; reorder INDEPENDENT statements;
@@ -32,5 +43,7 @@ Procedure for each edit:
       patch.diff  - `git diff` of the change (must apply with `git apply` to a pristine tree)
       meta.json   - {{"property": "{pid}", "summary": "<what was rewritten and why behaviour is unchanged>", "kind": "<which kind of rewrite>", "ran": ["<commands you ran and their outcome>"]}}
  4. Restore the tree to pristine (`git checkout -- .`) before starting the next edit. Leave the worktree pristine at the end (only the untracked _benign/ directory remains).
+
+{extra}
 
 Report at the end, for each edit: the diff, why it is behaviour-preserving, and confirmation that it compiles, is gofmt-clean and the existing suite passes with it.""")
